@@ -187,6 +187,11 @@ class Mon:
                 self.bump('al_equiv_skipped_reads_own_code')
                 return
             a, b = dict(post1), dict(post2)
+            # an exception taken to Hyp mode records the instruction's own condition in the syndrome: HSR.{CV, COND}, and for
+            # SVC the immediate is UNKNOWN unless the condition is AL (CallSupervisor()): the HSR differs by construction
+            # between the conditional and the AL variant and is not part of this relation
+            for s in (a, b):
+                s.pop('hsr', None)
             if kind != 'arm' and setcond is None:
                 # ITSTATE keeps its base condition: compare modulo IT[7:5]
                 # ITSTATE[7:4] is the condition itself (bit 4 is refilled from the mask on advance, which C08 checks)
